@@ -22,7 +22,7 @@ def parse(path):
     if m: res["demo_with_change"] = m.group(1)
     m = re.search(r"(baseline with change: [^\n]*)", txt)
     if m: res["baseline_with_change"] = m.group(1).strip()
-    for m in re.finditer(r"^\s+(C\d\d) rc=(\d+) violations=(\d+)\s*(.*)$", txt, re.M):
+    for m in re.finditer(r"^[ \t]+(C\d\d) rc=(\d+) violations=(\d+)[ \t]*(.*)$", txt, re.M):
         res["checks"][m.group(1)] = {"exit": int(m.group(2)), "violations": int(m.group(3)), "first": m.group(4).strip()[:220]}
     return res
 
